@@ -181,6 +181,9 @@ func runHistory(h *simrt.History, emit func(*simrt.CallResult)) {
 		case "remove":
 			w.Del(st.File)
 			res.Kind = "ok"
+		case "symlink":
+			w.PutLink(st.File, st.Link)
+			res.Kind = "ok"
 		case "move":
 			w.Move(st.From, st.To)
 			res.Kind = "ok"
